@@ -274,6 +274,37 @@ func specialValueCases() [][2]bson.D {
 	return out
 }
 
+// filteredCases: $[identifier] touches exactly the elements that satisfy the array filter, wherever they stand.
+type filtered struct {
+	doc, upd bson.D
+	afs      []bson.D
+}
+
+func filteredCases() []filtered {
+	e := func(k string, v interface{}) bson.D { return bson.D{{Key: k, Value: v}} }
+	var out []filtered
+	arrays := []bson.A{{int32(95), int32(70), int32(60)}, {int32(60), int32(95), int32(70), int32(99)}, {int32(1), int32(2)}, {int32(95)}, {}}
+	for _, arr := range arrays {
+		for _, u := range []bson.D{e("$set", e("g.$[x]", int32(90))), e("$inc", e("g.$[x]", int32(1))), e("$mul", e("g.$[x]", int32(2))), e("$max", e("g.$[x]", int32(96)))} {
+			out = append(out, filtered{e("g", arr), u, []bson.D{e("x", e("$gte", int32(90)))}})
+			out = append(out, filtered{e("g", arr), u, []bson.D{e("x", e("$lt", int32(65)))}})
+		}
+	}
+	docs := bson.A{bson.D{{Key: "k", Value: "a"}, {Key: "n", Value: int32(1)}}, bson.D{{Key: "k", Value: "b"}, {Key: "n", Value: int32(2)}}, bson.D{{Key: "k", Value: "a"}, {Key: "n", Value: int32(3)}},
+		bson.D{{Key: "k", Value: "c"}}}
+	for _, u := range []bson.D{e("$set", e("items.$[x].n", int32(0))), e("$inc", e("items.$[x].n", int32(10))), e("$unset", e("items.$[x].n", "")), e("$set", e("items.$[x].tags", bson.A{"t"})),
+		bson.D{{Key: "$set", Value: e("items.$[x].n", int32(7))}, {Key: "$inc", Value: e("items.$[y].m", int32(1))}}} {
+		for _, f := range [][]bson.D{{e("x.k", "a"), e("y.k", "b")}, {e("x.k", "b"), e("y.k", "c")}, {e("x.n", e("$gte", int32(2))), e("y.n", e("$exists", false))}} {
+			afs := f
+			if len(u) == 1 {
+				afs = f[:1]
+			}
+			out = append(out, filtered{e("items", docs), u, afs})
+		}
+	}
+	return out
+}
+
 func fixedCases() [][2]bson.D {
 	one := func(doc bson.D, op, path string, v interface{}) [2]bson.D {
 		return [2]bson.D{doc, {{Key: op, Value: bson.D{{Key: path, Value: v}}}}}
@@ -325,6 +356,12 @@ func main() {
 	}
 	for _, fc := range boundaryGrid() {
 		record(fc[0], fc[1], nil, false)
+	}
+	for _, fc := range filteredCases() {
+		res := record(fc.doc, fc.upd, fc.afs, false)
+		if !res.pnc && driverCheck(fc.doc, fc.upd, fc.afs, res) {
+			modChecks++
+		}
 	}
 	for _, fc := range specialValueCases() {
 		res := record(fc[0], fc[1], nil, false)
